@@ -46,7 +46,9 @@ def CtxNeutral (h : Handler) : Prop := ∀ st, (h st).2.ctx = st.ctx
 theorem scripted_ctxNeutral : CtxNeutral scripted := by
   intro st
   unfold scripted
-  split <;> rfl
+  cases st.script with
+  | nil => rfl
+  | cons r rest => cases rest <;> rfl
 
 theorem retryLoop_ctx (h : Handler) (hn : CtxNeutral h) (stop : Bool) (rem : Nat) :
     ∀ outs e st, (retryLoop h stop rem outs e st).2.ctx = st.ctx := by
